@@ -21,6 +21,7 @@
    Quantification: every cluster handler [kh] (responses and state are arbitrary), every
    storage-fault plan [f] (n-th write fails, crash before the n-th mutating effect), every
    history; no bound on any length. *)
+From Helm Require Props.Skeleton. (* effect skeleton tied to /repo by the translator: notes/SKEL.md *)
 From Coq Require Import List String Bool Arith.
 From Helm Require Import Engine.Types Engine.Eff Engine.Ops Engine.Cluster Engine.Seq Engine.SeqProofs
   Engine.LedgerBase Engine.LedgerPieces Engine.LedgerRev Engine.LedgerDep Engine.LedgerPrune Engine.LedgerRecover
